@@ -937,6 +937,50 @@ def rule_v11(F):
     return r
 
 
+def rule_v12(F):
+    """`Switch` means: the branch whose key EQUALS the examinee, else the default - whatever the order of the branch list (the
+    compiled code's jump table does not depend on it, and the lowering of `match` emits its branches in hash-map order).  The
+    evaluator's lookup therefore looks at every branch and compares with `==`; a lookup that assumes sorted keys (`binary_search*`,
+    `partition_point`) silently falls to the default for keys that are present and the
+    evaluator completes with another arm's value."""
+    r = RuleResult("C20.V12", "evaluator Switch: the branch is found by equality over all branches (no order-dependent search of the branch list)", floor=1)
+    ps = [p for p in F.paths() if p.startswith("lir::eval::") and hir.last(p.split("::{closure")[0]) == "eval"]
+    bodies = [F.body(p) for p in ps if F.body(p) is not None]
+    top = [b for b in bodies if "{closure" not in b.path and b.hir]
+    if not top:
+        r.missing("lir::eval::eval")
+        return r
+    ms = hir.find_match_on(top[0].hir["value"], "Instruction::", min_arms=10)
+    arm = None
+    for m in ms:
+        for a in m["arms"]:
+            if any(x.startswith("Instruction::Switch") for x in hir.pat_alternatives(a["pat"])):
+                arm = a
+    if arm is None:
+        r.missing("the Instruction::Switch arm of lir::eval::eval")
+        return r
+    ORDERED = ("binary_search", "binary_search_by", "binary_search_by_key", "partition_point")
+    binds = {n_ for n_, _ in hir.pat_bindings(arm["pat"])}
+    eq_search = 0
+    for c in hir.nodes(arm["body"], "mcall"):
+        if c["m"] in ("find", "find_map", "position", "any", "filter") and c["args"] and hir.strip(c["args"][0]).get("k") == "closure":
+            if any(n.get("k") == "bin" and n.get("op") == "==" for n in hir.walk(hir.strip(c["args"][0]).get("body") or {})):
+                eq_search += 1
+        if c["m"] in ORDERED and any(n.get("k") == "path" and (n.get("res") or {}).get("name") == "branches" for n in hir.walk(c["recv"])):
+            r.bad(top[0].path, "order-dependent lookup of the Switch branch", relfile(top[0].file), c.get("line") or arm.get("line") or top[0].line,
+                  "the evaluator looks the branch of a Switch up with `%s`: that is right only for a sorted branch list, and `match` emits its branches in hash-map order - a key that is "
+                  "present is missed, the default (another arm) is taken and the evaluator completes with a different value than the compiled code" % c["m"])
+    # a hand-written loop over the branches with an equality test counts as well
+    for lp in hir.nodes(arm["body"], "loop"):
+        if any(n.get("k") == "bin" and n.get("op") == "==" for n in hir.walk(lp)):
+            eq_search += 1
+    r.inst("Switch lookup", {"equality_searches": eq_search})
+    if eq_search < 1 and not r.violations:
+        r.bad(top[0].path, "no equality search of the Switch branches", relfile(top[0].file), arm.get("line") or top[0].line,
+              "the Switch arm of the evaluator no longer selects the branch by comparing every branch key with the examinee")
+    return r
+
+
 def rules(ctx):
     F = ctx["F"]
-    return [rule_v1(F), rule_v2(F), rule_v3(F), rule_v4(F), rule_v6(F), rule_v7(F), rule_v8(F), rule_v9(F), rule_v10(F), rule_v11(F)]
+    return [rule_v1(F), rule_v2(F), rule_v3(F), rule_v4(F), rule_v6(F), rule_v7(F), rule_v8(F), rule_v9(F), rule_v10(F), rule_v11(F), rule_v12(F)]
